@@ -51,7 +51,7 @@ Definition encok_datatype (x : datatype) : bool :=
   else if c =? DT_VLEN then true
   else false.
 
-Definition enc_datatype (x : datatype) : bytes :=
+Definition enc_datatype_gen (vlen_repaired : bool) (x : datatype) : bytes :=
   let c := dt_class x in
   if (c =? DT_FIXED) || (c =? DT_FLOAT) then
     dt_header c 1 (dt_cbf x) (dt_size x) ++ numeric_props c (dt_size x) (dt_cbf x)
@@ -66,12 +66,15 @@ Definition enc_datatype (x : datatype) : bytes :=
   else if c =? DT_COMPOUND then
     dt_header c (dt_version x) (dt_cbf x) (dt_size x) ++ dt_props x
   else if c =? DT_VLEN then
-    if vlen_header_repaired then
+    if vlen_repaired then
       dt_header c vlen_repaired_version (dt_cbf x) (dt_size x) ++ dt_props x
     else
       (* buf[0] = version(0) | byte(class)<<4 ; buf[1..3] = 0 ; size ; ClassBitField ; properties *)
       [wrap8 (N.shiftl c 4); 0; 0; 0] ++ le 4 (dt_size x) ++ le 4 (dt_cbf x) ++ dt_props x
   else [].
+
+(* the encoder of the tree under test *)
+Definition enc_datatype (x : datatype) : bytes := enc_datatype_gen vlen_header_repaired x.
 
 (* ---- decoder ---- *)
 
@@ -178,13 +181,14 @@ Definition wf_datatype (x : datatype) : bool :=
   (if dt_class x =? DT_COMPOUND then (dt_version x <? 16) && compound_props_exact x else true) &&
   (if dt_class x =? DT_OPAQUE then pad8 (blen (dt_props x)) <? 16777216 else true).
 
-Definition size_datatype (x : datatype) : N :=
+Definition size_datatype_gen (vlen_repaired : bool) (x : datatype) : N :=
   let c := dt_class x in
   if c =? DT_FIXED then 12 else if c =? DT_FLOAT then 20 else if c =? DT_STRING then 9
   else if c =? DT_REFERENCE then 8 else if c =? DT_OPAQUE then 8 + pad8 (blen (dt_props x))
   else if c =? DT_COMPOUND then 8 + blen (dt_props x)
-  else if c =? DT_VLEN then (if vlen_header_repaired then 8 else 12) + blen (dt_props x)
+  else if c =? DT_VLEN then (if vlen_repaired then 8 else 12) + blen (dt_props x)
   else 0.
+Definition size_datatype (x : datatype) : N := size_datatype_gen vlen_header_repaired x.
 
 Definition datatype_eqb (a b : datatype) : bool :=
   (dt_class a =? dt_class b) && (dt_version a =? dt_version b) && (dt_size a =? dt_size b) &&
@@ -193,7 +197,14 @@ Definition datatype_eqb (a b : datatype) : bool :=
 Definition val_datatype (d : datatype) : val :=
   VL [VN (dt_class d); VN (dt_version d); VN (dt_size d); VN (dt_cbf d); VB (dt_props d)].
 
+(* variable-length types under the repaired layout: version comes back as 1 *)
+Definition wf_vlen (x : datatype) : bool :=
+  (dt_class x =? DT_VLEN) && negb (dt_size x =? 0) && (dt_size x <? 4294967296) && (dt_cbf x <? 16777216).
+Definition proj_vlen (x : datatype) : datatype :=
+  {| dt_class := DT_VLEN; dt_version := vlen_repaired_version; dt_size := dt_size x; dt_cbf := dt_cbf x;
+     dt_props := dt_props x |}.
+
 (* D10 witness: a variable-length string type as dataset_write.go builds it *)
 Definition vlen_witness : datatype :=
   {| dt_class := DT_VLEN; dt_version := 0; dt_size := 16; dt_cbf := 1;
-     dt_props := enc_datatype {| dt_class := DT_STRING; dt_version := 1; dt_size := 1; dt_cbf := 0; dt_props := [] |} |}.
+     dt_props := enc_datatype_gen false {| dt_class := DT_STRING; dt_version := 1; dt_size := 1; dt_cbf := 0; dt_props := [] |} |}.
